@@ -133,6 +133,9 @@ enum Fam {
     /// entries whose key is a small collection (`kind` 0: `{k: v}`, 1: `[k]`, 2: `{k: v, l: w}`)
     /// nested d deep around a payload of n nodes: keys are captured, values must stream
     KeyNest { d: u32, n: u32, kind: u8 },
+    /// one anchored scalar of `size` bytes (multi-byte text when `wide`) aliased k times: the
+    /// expansion is in bytes, not in nodes
+    BigScalar { size: u32, k: u32, wide: bool },
     Doc { doc: Node, layout: Layout },
 }
 #[derive(Clone, Copy, Debug, Serialize, Deserialize, PartialEq)]
@@ -144,6 +147,9 @@ enum Lim {
     Replay(i8),
     /// AliasLimits::max_alias_expansions_per_anchor = usage + delta
     PerAnchor(i8),
+    /// max_total_scalar_bytes = usage + delta (everything else unlimited): bytes that reach the
+    /// target through alias replay count like the ones written in place
+    ScalarBytes(i8),
     /// AliasLimits::max_replay_stack_depth = v
     Stack(u8),
 }
@@ -253,6 +259,22 @@ fn text_of(f: &Fam) -> String {
                 s.push_str(&(i % 7).to_string());
             }
             s.push_str("]\n: v\n");
+        }
+        Fam::BigScalar { size, k, wide } => {
+            s.push_str("- &s \"");
+            if *wide {
+                for _ in 0..(*size / 2) {
+                    s.push('\u{e9}');
+                }
+            } else {
+                for _ in 0..*size {
+                    s.push('x');
+                }
+            }
+            s.push_str("\"\n");
+            for _ in 0..*k {
+                s.push_str("- *s\n");
+            }
         }
         Fam::KeyNest { d, n, kind } => {
             let key = ["{k: v}", "[k]", "{k: v, l: w}"][*kind as usize % 3];
@@ -397,6 +419,11 @@ fn check_case(c: &Case) -> Outcome {
         (Lim::Nodes(d), Some(u)) => {
             let mut b = BudgetD::unlimited();
             b.max_nodes = adj(u.nodes, d);
+            lim = Limits { b: Some(b), replay: usize::MAX, per_anchor: usize::MAX, stack: 64 };
+        }
+        (Lim::ScalarBytes(d), Some(u)) => {
+            let mut b = BudgetD::unlimited();
+            b.max_total_scalar_bytes = adj(u.scalar_bytes, d);
             lim = Limits { b: Some(b), replay: usize::MAX, per_anchor: usize::MAX, stack: 64 };
         }
         (Lim::Replay(d), Some(u)) => {
@@ -554,7 +581,7 @@ impl Property for C08 {
     /// libFuzzer input: limit setting, layout bits, anchor percentages, decoration script, tree
     fn fuzz_decode(data: &[u8]) -> Option<(&'static str, Case, bool)> {
         let mut b = engine::Bytes::new(data);
-        let lim = b.pick(&[Lim::Default, Lim::Nodes(0), Lim::Nodes(-1), Lim::Replay(0), Lim::Replay(-1), Lim::PerAnchor(0), Lim::PerAnchor(-1), Lim::Stack(0), Lim::Stack(1)]);
+        let lim = b.pick(&[Lim::Default, Lim::Nodes(0), Lim::Nodes(-1), Lim::Replay(0), Lim::Replay(-1), Lim::PerAnchor(0), Lim::PerAnchor(-1), Lim::Stack(0), Lim::Stack(1), Lim::ScalarBytes(0), Lim::ScalarBytes(-1)]);
         let lb = b.u16() as u32;
         let (a, al) = b.pick(&[(25u16, 30u16), (40, 35), (15, 45)]);
         let script = gdoc::script_from_bytes(&mut b, 24);
@@ -565,7 +592,7 @@ impl Property for C08 {
     }
     fn generate(ctx: &mut Ctx<Self>) {
         let thorough = ctx.tier == engine::Tier::Thorough;
-        let lims = [Lim::Default, Lim::Nodes(0), Lim::Nodes(-1), Lim::Replay(0), Lim::Replay(-1), Lim::PerAnchor(0), Lim::PerAnchor(-1), Lim::Stack(0), Lim::Stack(1)];
+        let lims = [Lim::Default, Lim::Nodes(0), Lim::Nodes(-1), Lim::Replay(0), Lim::Replay(-1), Lim::PerAnchor(0), Lim::PerAnchor(-1), Lim::Stack(0), Lim::Stack(1), Lim::ScalarBytes(0), Lim::ScalarBytes(-1)];
         let mut fams: Vec<Fam> = vec![];
         for levels in 1..=8 {
             for fanout in 2..=10 {
@@ -598,6 +625,13 @@ impl Property for C08 {
         for n in [1, 100, 5000] {
             fams.push(Fam::LongKey { n });
         }
+        for size in [1, 100, 10_000, 1_000_000] {
+            for k in [1, 9, 90] {
+                for wide in [false, true] {
+                    fams.push(Fam::BigScalar { size, k, wide });
+                }
+            }
+        }
         for d in [1, 4, 16, 60] {
             for n in [10, 500, 2000] {
                 for kind in 0..3 {
@@ -618,7 +652,7 @@ impl Property for C08 {
                 }
             }
         }
-        ctx.subspace("attack-family grid x 9 limit settings", total, true);
+        ctx.subspace("attack-family grid x 11 limit settings", total, true);
 
         // generated documents
         let strat = (
